@@ -444,7 +444,8 @@ def run(sh):
             if rng.random() < 0.3:
                 labels = [['chan0'] * m, ['chan1'] * m]          # one label for every epoch of a channel
                 sh.note('flatten:repeated_labels')
-            c3 = {'tables': tabs2, 'labels': labels, 'two_d': True, 'labels_as': str(rng.choice(['list', 'array', 'array_T', 'array_F']))}
+            c3 = {'tables': tabs2, 'labels': labels, 'two_d': True, 'labels_as': str(rng.choice(['list', 'array', 'array_T', 'array_F'])),
+                  'column_name': str(rng.choice(['Label', 'Epoch', 'channel']))}
         else:
             r_ = rng.random()
             if r_ < 0.45:
@@ -459,6 +460,8 @@ def run(sh):
                   'column_name': 'Label' if rng.random() < 0.6 else 'Epoch'}
         run_flatten(sh, c3)
         sh.note('flatten:%s' % ('2d' if two_d else '1d'))
+        if c3.get('column_name', 'Label') != 'Label':
+            sh.note('flatten:%s_own_column_name' % ('2d' if two_d else '1d'))
         sh.case_done(None, True, key='f%d:%d' % (sh.shard, it), sample={'op': 'flatten_dfs', 'two_d': two_d, 'labels': labels if not two_d else labels[0]})
     for k, v in attach.COUNTS.items():
         if k.startswith('C18:'):
